@@ -1,10 +1,12 @@
 import PicoVerif.Model.AstWriters
 import PicoVerif.Props.C08
 import PicoVerif.Lemmas.C09
+import PicoVerif.Lemmas.C09b
 /-! C09 — luafmt changes only whitespace and never drops code.
-PARTIAL: "luafmt succeeds on every valid program" is the agreement of two grammars (parser and writer) and is
-correspondence-tested; the theorems below are about what a tree-driven writer can write when it does succeed, and
-that it fails rather than write a shortened program. -/
+The theorems say what a tree-driven writer writes when it succeeds (`whole_output`, `output_shape`), that it fails rather
+than write a shortened program (`no_silent_loss`), and that it succeeds exactly when picotool's parser consumed the
+program to its last significant token (`writer_succeeds_iff`).
+PARTIAL: "the parser accepts every program of the dialect" (C08) is correspondence-tested, not proved. -/
 namespace Pico.C09
 open Pico.Ast Pico.Lex Pico.Peg
 
@@ -83,6 +85,52 @@ theorem no_silent_loss (fmt : RunFmt) (toks : Array Tok) (walk : List (Nat × Na
 the significant tokens the parser consumed). -/
 theorem walk_is_leaves (toks : Array Tok) (t : Tree) (d : Nat) : (walkInd toks t d).map (·.1) = t.leaves :=
   walkInd_fst toks t d
+
+/-- what a successful `astWrite` is made of: the parser's result, the walk of its trees over the significant tokens it
+consumed, and the successful `assemble` of that walk -/
+theorem astWrite_ok (fmt : RunFmt) (toks : List Tok) (out : Bytes) (h : astWrite fmt toks = .ok out) :
+    ∃ ts st' walk,
+      Peg.run Gram.gram toks.toArray (50 * toks.toArray.size + 200) (.nt Gram.nChunk) { pos := 0, maxPos := none } = .ok (some (ts, st')) ∧
+      walk.map (·.1) = sigIdx toks.toArray 0 st'.pos ∧
+      assemble fmt toks.toArray walk 0 [] = .ok out := by
+  simp only [astWrite] at h
+  split at h
+  · simp at h
+  · simp at h
+  · rename_i ts st' hrun
+    refine ⟨ts, st', _, hrun, ?_, h⟩
+    rw [flatMap_walkInd_fst]
+    exact (Pico.C08.cover Gram.gram _ _ _ _ _ _ hrun).2
+
+/-- **C09.writer_succeeds_iff**: a tree-driven writer (ASTEcho, luafmt at any width — any run renderer) succeeds exactly
+when picotool's parser accepts the token list and consumes it to its last significant token; so on every program the
+parser accepts completely the formatter does produce output (`no_silent_loss` is the other half: it never produces
+output for less). -/
+theorem writer_succeeds_iff (fmt : RunFmt) (toks : List Tok) :
+    (∃ out, astWrite fmt toks = .ok out) ↔
+      ∃ ts st', Peg.run Gram.gram toks.toArray (50 * toks.toArray.size + 200) (.nt Gram.nChunk) { pos := 0, maxPos := none } = .ok (some (ts, st')) ∧
+        skipTrivia toks.toArray st'.pos ≥ toks.toArray.size := by
+  constructor
+  · rintro ⟨out, h⟩
+    obtain ⟨ts, st', walk, hrun, hw, ha⟩ := astWrite_ok fmt toks out h
+    exact ⟨ts, st', hrun, skip_ge_of_assemble_ok fmt _ walk 0 st'.pos [] out (Nat.zero_le _) hw ha⟩
+  · rintro ⟨ts, st', hrun, hend⟩
+    simp only [astWrite, hrun]
+    apply assemble_ok_of_sigIdx fmt _ _ 0 st'.pos [] (Nat.zero_le _) _ hend
+    rw [flatMap_walkInd_fst]
+    exact (Pico.C08.cover Gram.gram _ _ _ _ _ _ hrun).2
+
+/-- **C09.whole_output**: the whole text a successful writer returns is the interleaving, in stream order, of every
+significant token's code with the rendering of the trivia run in front of it, followed by the rendering of the final
+run — for the walk of the parser's tree, without further hypotheses. -/
+theorem whole_output (fmt : RunFmt) (toks : List Tok) (out : Bytes) (h : astWrite fmt toks = .ok out) :
+    ∃ walk, walk.map (·.1) = sigIdx toks.toArray 0 toks.toArray.size ∧ Interleaved fmt toks.toArray walk 0 out := by
+  obtain ⟨ts, st', walk, _, hw, ha⟩ := astWrite_ok fmt toks out h
+  have hend := skip_ge_of_assemble_ok fmt _ walk 0 st'.pos [] out (Nat.zero_le _) hw ha
+  obtain ⟨tail, ht, hI⟩ := assemble_interleaved fmt _ walk 0 [] out ha
+  rw [List.nil_append] at ht
+  subst ht
+  exact ⟨walk, by rw [hw, sigIdx_to_size _ 0 st'.pos (Nat.zero_le _) hend], hI⟩
 
 def okIs (r : Except Err Bytes) (b : Bytes) : Bool := match r with | .ok x => x == b | .error _ => false
 def isParseErr (r : Except Err Bytes) : Bool := match r with | .error .parse => true | _ => false
